@@ -21,7 +21,8 @@ EXPLANATION = (
     "evaluation sum(c * x**p); composition sum(c * q**p); x = 0 shortcut returns the constant term. C07.eq: __eq__ "
     "compares zero and the two stores (same length, every key present with equal value), __ne__ is its complement, "
     "__hash__ reads only those. Lagrange basis term (k - r_k)/(r_j - r_k) over r_k != r_j weighted by y_j. Not decided: "
-    "the ring laws on concrete coefficient values (they follow from dict arithmetic of the above).")
+    "the ring laws on concrete coefficient values (they follow from dict arithmetic of the above)."
+    " Also: C07.dispatch (decision tables): which arm of Poly.__init__ (incl. the compaction of one item), __add__, __mul__, __eq__, __truediv__, __pow__, __call__, __hash__ and copy runs for which kind of argument. ")
 
 UNDECIDED = ["associativity/distributivity on concrete values (consequence of the term-wise identities, not re-proved)"]
 
